@@ -988,6 +988,9 @@ func (p *parser) scanGroupOpen() (*RegexNode, error) {
 	}
 
 	p.moveRight(1)
+	// a (?...) construct used as the condition of (?(cond)yes|no) consumes the
+	// "don't capture the condition" flag just like a plain paren does above
+	p.ignoreNextParen = false
 
 	for p.charsRight() > 0 {
 		switch ch = p.moveRightGetChar(); ch {
